@@ -1970,7 +1970,8 @@ Lemma FInv_move_generic s t l (kind : nat) c2 r2 :
             FInv (set_c (retrier_drop s t l) (fst (wt_remove_pending_appointment c2 t l))) /\
             c_poisoned (fst (wt_remove_pending_appointment c2 t l)) = false /\
             (forall k, stat (fst (wt_remove_pending_appointment c2 t l)) k = stat (f_c s) k) /\
-            keeps (c_db (f_c s)) (c_db (fst (wt_remove_pending_appointment c2 t l)))
+            keeps (c_db (f_c s)) (c_db (fst (wt_remove_pending_appointment c2 t l))) /\
+            (forall k x, Prow (c_db (fst (wt_remove_pending_appointment c2 t l))) k x <-> Prow (c_db (f_c s)) k x /\ ~ (k = t /\ x = l))
   end.
 Proof.
   intros HF Hp Hk Hrun Hl Hkind HI2 Hret2 Hst2 Hh2 Hres2 Habort Hok.
@@ -1993,7 +1994,7 @@ Proof.
   { intros k x. rewrite EP3, (Prow_ext _ _ k x EPt). tauto. }
   assert (ER0 : forall k x, Rrow (c_db c3) k x <-> Rrow (c_db c2) k x) by (intros; apply Rrow_ext, Hfr; discriminate).
   assert (EI0 : forall k x, Irow (c_db c3) k x <-> Irow (c_db c2) k x) by (intros; apply Irow_ext, Hfr; discriminate).
-  split; [|split; [exact Hp3|split; [intros k; rewrite Hst3; apply Hst2|]]].
+  split; [|split; [exact Hp3|split; [intros k; rewrite Hst3; apply Hst2|split; [|exact EP0]]]].
   2:{ intros k x [H|[H|H]].
       - left. apply ER0, ER. left. exact H.
       - destruct (N.eq_dec k t) as [->|Hkt]; [destruct (N.eq_dec x l) as [->|Hxl]|].
@@ -2089,15 +2090,17 @@ Lemma FInv_run_for t : forall locs s adds s' adds' res,
   FInv s' /\ (no_abort res -> poisoned s' = false /\ (forall k, knownc (f_c s') k <-> knownc (f_c s) k)) /\
   (res = None -> forall l, In l locs -> ~ In l (retrier_pending s' t)) /\
   (forall x, In x (retrier_pending s' t) -> In x (retrier_pending s t)) /\ res <> Some RunFuel /\
-  keeps (c_db (f_c s)) (c_db (f_c s')).
+  keeps (c_db (f_c s)) (c_db (f_c s')) /\
+  (forall k x, Prow (c_db (f_c s')) k x -> Prow (c_db (f_c s)) k x) /\
+  (res = None -> forall l, In l locs -> ~ Prow (c_db (f_c s')) t l).
 Proof.
   induction locs as [|l locs IH]; intros s adds s' adds' res [HF [Hp [Hk Hrun]]] Hnd Hsub E; cbn [run_for] in E.
-  { inversion E. subst. split; [exact HF|]. split; [intros _; split; [exact Hp|tauto]|]. split; [intros _ x []|]. split; [auto|split; [discriminate|apply keeps_refl]]. }
+  { inversion E. subst. split; [exact HF|]. split; [intros _; split; [exact Hp|tauto]|]. split; [intros _ x []|]. split; [auto|split; [discriminate|split; [apply keeps_refl|split; [auto|intros _ x []]]]]. }
   unfold poisoned in Hp. pose proof Hp as Hp'. unfold poisoned in E. rewrite Hp in E.
   inversion Hnd as [|? ? Hnl Hnd']. subst.
   pose proof HF as [HI [HD [HV HT]]].
   destruct (dbm_load_appointment (c_db (f_c s)) l) as [body|].
-  2:{ inversion E. subst. split; [|split; [intros []|split; [discriminate|split; [auto|split; [discriminate|apply keeps_refl]]]]].
+  2:{ inversion E. subst. split; [|split; [intros []|split; [discriminate|split; [auto|split; [discriminate|split; [apply keeps_refl|split; [auto|discriminate]]]]]]].
       apply FInv_poisoned_same_db; [exact HF|apply Inv_poison, HI|reflexivity|reflexivity]. }
   set (s1 := log_req s (ReqAdd t l)) in *.
   assert (HF1 : FInv s1) by (apply (FInv_core s); auto).
@@ -2106,16 +2109,21 @@ Proof.
   assert (Hcont : forall c3 s3, s3 = set_c (retrier_drop s1 t l) c3 \/ True ->
             forall sX, FInv sX -> poisoned sX = false -> (forall k, knownc (f_c sX) k <-> knownc (f_c s) k) -> rstat sX t = Some RRunning ->
             (forall x, In x (retrier_pending sX t) <-> In x (retrier_pending s t) /\ x <> l) -> keeps (c_db (f_c s)) (c_db (f_c sX)) ->
+            (forall k x, Prow (c_db (f_c sX)) k x <-> Prow (c_db (f_c s)) k x /\ ~ (k = t /\ x = l)) ->
             run_for sX t locs adds1 = (s', adds', res) ->
             FInv s' /\ (no_abort res -> poisoned s' = false /\ (forall k, knownc (f_c s') k <-> knownc (f_c s) k)) /\
             (res = None -> forall x, In x (l :: locs) -> ~ In x (retrier_pending s' t)) /\
-            (forall x, In x (retrier_pending s' t) -> In x (retrier_pending s t)) /\ res <> Some RunFuel /\ keeps (c_db (f_c s)) (c_db (f_c s'))).
-  { intros _ _ _ sX HFX HpX HkX HrX HpendX HkeepX EX.
-    destruct (IH sX adds1 s' adds' res) as [A [B [C [D [F G]]]]]; [exact (conj HFX (conj HpX (conj (proj2 (HkX t) Hk) HrX)))|exact Hnd'| |exact EX|].
+            (forall x, In x (retrier_pending s' t) -> In x (retrier_pending s t)) /\ res <> Some RunFuel /\ keeps (c_db (f_c s)) (c_db (f_c s')) /\
+            (forall k x, Prow (c_db (f_c s')) k x -> Prow (c_db (f_c s)) k x) /\
+            (res = None -> forall x, In x (l :: locs) -> ~ Prow (c_db (f_c s')) t x)).
+  { intros _ _ _ sX HFX HpX HkX HrX HpendX HkeepX HPX EX.
+    destruct (IH sX adds1 s' adds' res) as [A [B [C [D [F [G [PA PN]]]]]]]; [exact (conj HFX (conj HpX (conj (proj2 (HkX t) Hk) HrX)))|exact Hnd'| |exact EX|].
     - intros x Hx. apply HpendX. split; [apply Hsub; right; exact Hx|]. intros ->. contradiction.
     - split; [exact A|]. split; [intros Hna; destruct (B Hna) as [B1 B2]; split; [exact B1|intros k; rewrite B2; apply HkX]|].
-      split; [|split; [intros x Hx; apply HpendX, D, Hx|split; [exact F|eapply keeps_trans; eassumption]]].
-      intros Hr x [<-|Hx]; [|apply C; assumption]. intros Hin. apply D, HpendX in Hin. tauto. }
+      split; [|split; [intros x Hx; apply HpendX, D, Hx|split; [exact F|split; [eapply keeps_trans; eassumption|split]]]].
+      * intros Hr x [<-|Hx]; [|apply C; assumption]. intros Hin. apply D, HpendX in Hin. tauto.
+      * intros k x Hx. apply PA, HPX in Hx. tauto.
+      * intros Hr x [<-|Hx]; [|apply PN; assumption]. intros Hx. apply PA, HPX in Hx. tauto. }
   assert (Hpend_drop : forall sX, (forall k, retrier_pending sX k = retrier_pending (retrier_drop s1 t l) k) ->
             forall x, In x (retrier_pending sX t) <-> In x (retrier_pending s t) /\ x <> l).
   { intros sX HX x. rewrite HX, retrier_pending_drop, N.eqb_refl, In_set_remove. reflexivity. }
@@ -2130,20 +2138,21 @@ Proof.
     + inversion E. subst. split; [exact Hmove|]. split; [intros []|]. split; [discriminate|]. split; [|split; [discriminate|]].
       * intros x Hx. change (retrier_pending (wr_c (retrier_drop s1 t l) c2) t) with (retrier_pending (retrier_drop s1 t l) t) in Hx.
         rewrite retrier_pending_drop, N.eqb_refl in Hx. apply In_set_remove in Hx. tauto.
-      * cbn [f_c wr_c]. rewrite S6; [apply keeps_refl|]. destruct S5 as [->|[st0 ->]]; [discriminate El2|reflexivity].
-    + destruct (wt_remove_pending_appointment c2 t l) as [c3 r3] eqn:E3. cbn [fst snd] in Hmove. destruct Hmove as [M1 [M2 [M3 [M4 M5]]]].
-      rewrite M1 in E. eapply (Hcont c3 (set_c s c3) (or_intror I) (wr_c (wr_c (retrier_drop s1 t l) c2) c3)); [exact M2|exact M3| | | |exact M5|exact E].
+      * cbn [f_c wr_c]. assert (Edb : c_db c2 = c_db (f_c s)) by (apply S6; destruct S5 as [->|[st0 ->]]; [discriminate El2|reflexivity]).
+        rewrite Edb. split; [apply keeps_refl|split; [auto|discriminate]].
+    + destruct (wt_remove_pending_appointment c2 t l) as [c3 r3] eqn:E3. cbn [fst snd] in Hmove. destruct Hmove as [M1 [M2 [M3 [M4 [M5 M6]]]]].
+      rewrite M1 in E. eapply (Hcont c3 (set_c s c3) (or_intror I) (wr_c (wr_c (retrier_drop s1 t l) c2) c3)); [exact M2|exact M3| | | |exact M5|exact M6|exact E].
       * intros k. cbn [f_c wr_c]. apply (knownc_stat _ _ M4).
       * change (rstat (wr_c (wr_c (retrier_drop s1 t l) c2) c3) t) with (rstat (retrier_drop s1 t l) t). rewrite retrier_drop_rstat. exact Hrun.
       * apply Hpend_drop. reflexivity.
-  - inversion E. subst. split; [exact HF1|]. split; [intros _; split; [exact Hp'|tauto]|]. split; [discriminate|]. split; [auto|split; [discriminate|apply keeps_refl]].
-  - inversion E. subst. split; [exact HF1|]. split; [intros _; split; [exact Hp'|tauto]|]. split; [discriminate|]. split; [auto|split; [discriminate|apply keeps_refl]].
-  - inversion E. subst. split; [exact HF1|]. split; [intros _; split; [exact Hp'|tauto]|]. split; [discriminate|]. split; [auto|split; [discriminate|apply keeps_refl]].
-  - inversion E. subst. split; [exact HF1|]. split; [intros _; split; [exact Hp'|tauto]|]. split; [discriminate|]. split; [auto|split; [discriminate|apply keeps_refl]].
-  - inversion E. subst. split; [exact HF1|]. split; [intros _; split; [exact Hp'|tauto]|]. split; [discriminate|]. split; [auto|split; [discriminate|apply keeps_refl]].
+  - inversion E. subst. split; [exact HF1|]. split; [intros _; split; [exact Hp'|tauto]|]. split; [discriminate|]. split; [auto|split; [discriminate|split; [apply keeps_refl|split; [auto|discriminate]]]].
+  - inversion E. subst. split; [exact HF1|]. split; [intros _; split; [exact Hp'|tauto]|]. split; [discriminate|]. split; [auto|split; [discriminate|split; [apply keeps_refl|split; [auto|discriminate]]]].
+  - inversion E. subst. split; [exact HF1|]. split; [intros _; split; [exact Hp'|tauto]|]. split; [discriminate|]. split; [auto|split; [discriminate|split; [apply keeps_refl|split; [auto|discriminate]]]].
+  - inversion E. subst. split; [exact HF1|]. split; [intros _; split; [exact Hp'|tauto]|]. split; [discriminate|]. split; [auto|split; [discriminate|split; [apply keeps_refl|split; [auto|discriminate]]]].
+  - inversion E. subst. split; [exact HF1|]. split; [intros _; split; [exact Hp'|tauto]|]. split; [discriminate|]. split; [auto|split; [discriminate|split; [apply keeps_refl|split; [auto|discriminate]]]].
   - (* subscription error *)
     inversion E. subst. split; [refine (FInv_set_status s1 t SubscriptionError HF1 Hp' _); discriminate|].
-    split; [|split; [discriminate|split; [auto|split; [discriminate|cbn [f_c set_c]; rewrite DbInv_set_status; apply keeps_refl]]]].
+    split; [|split; [discriminate|split; [auto|split; [discriminate|cbn [f_c set_c]; rewrite DbInv_set_status; split; [apply keeps_refl|split; [auto|discriminate]]]]]].
     intros _. split.
     + unfold poisoned. cbn [f_c set_c]. destruct (prim_set_status (f_c s) t SubscriptionError HI) as [_ [_ [_ [Hpo _]]]]. rewrite Hpo. exact Hp'.
     + intros k. apply knownc_set_status.
@@ -2156,9 +2165,10 @@ Proof.
     + inversion E. subst. split; [exact Hmove|]. split; [intros []|]. split; [discriminate|]. split; [|split; [discriminate|]].
       * intros x Hx. change (retrier_pending (wr_c (retrier_drop s1 t l) c2) t) with (retrier_pending (retrier_drop s1 t l) t) in Hx.
         rewrite retrier_pending_drop, N.eqb_refl in Hx. apply In_set_remove in Hx. tauto.
-      * cbn [f_c wr_c]. rewrite S6; [apply keeps_refl|]. destruct S5 as [->|[st0 ->]]; [discriminate El2|reflexivity].
-    + destruct (wt_remove_pending_appointment c2 t l) as [c3 r3] eqn:E3. cbn [fst snd] in Hmove. destruct Hmove as [M1 [M2 [M3 [M4 M5]]]].
-      rewrite M1 in E. eapply (Hcont c3 (set_c s c3) (or_intror I) (wr_c (wr_c (retrier_drop s1 t l) c2) c3)); [exact M2|exact M3| | | |exact M5|exact E].
+      * cbn [f_c wr_c]. assert (Edb : c_db c2 = c_db (f_c s)) by (apply S6; destruct S5 as [->|[st0 ->]]; [discriminate El2|reflexivity]).
+        rewrite Edb. split; [apply keeps_refl|split; [auto|discriminate]].
+    + destruct (wt_remove_pending_appointment c2 t l) as [c3 r3] eqn:E3. cbn [fst snd] in Hmove. destruct Hmove as [M1 [M2 [M3 [M4 [M5 M6]]]]].
+      rewrite M1 in E. eapply (Hcont c3 (set_c s c3) (or_intror I) (wr_c (wr_c (retrier_drop s1 t l) c2) c3)); [exact M2|exact M3| | | |exact M5|exact M6|exact E].
       * intros k. cbn [f_c wr_c]. apply (knownc_stat _ _ M4).
       * change (rstat (wr_c (wr_c (retrier_drop s1 t l) c2) c3) t) with (rstat (retrier_drop s1 t l) t). rewrite retrier_drop_rstat. exact Hrun.
       * apply Hpend_drop. reflexivity.
@@ -2204,28 +2214,32 @@ Qed.
 Lemma FInv_run_while t hint : forall fuel s adds s' res,
   RunPre s t -> run_while fuel s t hint adds = (s', res) ->
   FInv s' /\ (match res with RunAbort _ => False | _ => True end -> poisoned s' = false /\ (forall k, knownc (f_c s') k <-> knownc (f_c s) k)) /\
-  (res = RunOk -> retrier_pending s' t = []) /\ keeps (c_db (f_c s)) (c_db (f_c s')).
+  (res = RunOk -> retrier_pending s' t = []) /\ keeps (c_db (f_c s)) (c_db (f_c s')) /\
+  (forall k x, Prow (c_db (f_c s')) k x -> Prow (c_db (f_c s)) k x) /\
+  (res = RunOk -> forall l, In l (retrier_pending s t) -> ~ Prow (c_db (f_c s')) t l).
 Proof.
   induction fuel as [|f IH]; intros s adds s' res Hpre E; cbn [run_while] in E.
-  { inversion E. subst. destruct Hpre as [HF [Hp _]]. split; [exact HF|]. split; [intros _; split; [exact Hp|tauto]|split; [discriminate|apply keeps_refl]]. }
+  { inversion E. subst. destruct Hpre as [HF [Hp _]]. split; [exact HF|]. split; [intros _; split; [exact Hp|tauto]|split; [discriminate|split; [apply keeps_refl|split; [auto|discriminate]]]]. }
   destruct (retrier_pending s t) as [|x p] eqn:Ep.
-  { inversion E. subst. destruct Hpre as [HF [Hp _]]. split; [exact HF|]. split; [intros _; split; [exact Hp|tauto]|split; [intros _; exact Ep|apply keeps_refl]]. }
+  { inversion E. subst. destruct Hpre as [HF [Hp _]]. split; [exact HF|]. split; [intros _; split; [exact Hp|tauto]|split; [intros _; exact Ep|split; [apply keeps_refl|split; [auto|intros _ l []]]]]. }
   destruct (run_for s t (reorder hint (x :: p)) adds) as [[s1 adds1] r1] eqn:E1.
   pose proof Hpre as [HF [Hp [Hk Hrun]]].
   assert (Hnd : NoDup (x :: p)).
   { destruct HF as [_ [_ [HV _]]]. destruct (HV Hp) as [_ [_ [_ [V4 _]]]]. unfold retrier_pending in Ep.
     destruct (aget (f_mgr s) t) as [r|] eqn:Er; [|discriminate]. rewrite <- Ep. eapply V4, Er. }
-  destruct (FInv_run_for t _ s adds s1 adds1 r1 Hpre (NoDup_reorder hint _ Hnd)) as [A [B [C [D [F G]]]]]; [|exact E1|].
+  destruct (FInv_run_for t _ s adds s1 adds1 r1 Hpre (NoDup_reorder hint _ Hnd)) as [A [B [C [D [F [G [PA PN]]]]]]]; [|exact E1|].
   { intros l Hl. rewrite Ep. apply In_reorder in Hl. exact Hl. }
   destruct r1 as [r|].
-  - destruct (run_for_not_ok t _ _ _ _ _ _ E1) as [Hnok _]. inversion E. subst. split; [exact A|]. split; [|split; [intros ->; exfalso; apply Hnok; reflexivity|exact G]].
+  - destruct (run_for_not_ok t _ _ _ _ _ _ E1) as [Hnok _]. inversion E. subst. split; [exact A|]. split; [|split; [intros ->; exfalso; apply Hnok; reflexivity|split; [exact G|split; [exact PA|intros ->; exfalso; apply Hnok; reflexivity]]]].
     intros Hna. apply B. destruct res; auto.
   - destruct (B I) as [Hp1 Hk1].
     assert (Hpre1 : RunPre s1 t).
     { split; [exact A|]. split; [exact Hp1|]. split; [apply Hk1, Hk|].
       pose proof (run_for_same t (reorder hint (x :: p)) s adds) as [_ Hs]. rewrite E1 in Hs. cbn [fst] in Hs. rewrite Hs. exact Hrun. }
-    destruct (IH s1 adds1 s' res Hpre1 E) as [A' [B' [C' K']]]. split; [exact A'|]. split; [|split; [exact C'|eapply keeps_trans; eassumption]].
-    intros Hna. destruct (B' Hna) as [X Y]. split; [exact X|]. intros k. rewrite Y. apply Hk1.
+    destruct (IH s1 adds1 s' res Hpre1 E) as [A' [B' [C' [K' [PA' PN']]]]]. split; [exact A'|]. split; [|split; [exact C'|split; [eapply keeps_trans; eassumption|split]]].
+    + intros Hna. destruct (B' Hna) as [X Y]. split; [exact X|]. intros k. rewrite Y. apply Hk1.
+    + intros k y Hy. apply PA, PA', Hy.
+    + intros _ l Hl Hrow. apply PA' in Hrow. apply (PN eq_refl l); [|exact Hrow]. apply In_reorder. exact Hl.
 Qed.
 
 (* a renewal of the subscription of a KNOWN tower *)
@@ -2262,39 +2276,46 @@ Qed.
 Lemma FInv_run_attempt s t a s' res :
   FInv s -> rstat s t = Some RRunning -> run_attempt s t a = (s', res) ->
   FInv s' /\ (match res with RunAbort _ => False | _ => True end -> poisoned s' = false) /\
-  (res = RunOk -> retrier_pending s' t = [] /\ knownc (f_c s') t) /\ keeps (c_db (f_c s)) (c_db (f_c s')).
+  (res = RunOk -> retrier_pending s' t = [] /\ knownc (f_c s') t) /\ keeps (c_db (f_c s)) (c_db (f_c s')) /\
+  (forall k x, Prow (c_db (f_c s')) k x -> Prow (c_db (f_c s)) k x) /\
+  (res = RunOk -> forall l, In l (retrier_pending s t) -> ~ Prow (c_db (f_c s')) t l).
 Proof.
   intros HF Hrun E. unfold run_attempt in E. destruct (poisoned s) eqn:Hp.
-  { inversion E. subst. split; [exact HF|]. split; [intros []|split; [discriminate|apply keeps_refl]]. }
+  { inversion E. subst. split; [exact HF|]. split; [intros []|split; [discriminate|split; [apply keeps_refl|split; [auto|discriminate]]]]. }
   destruct (aget (c_towers (f_c s)) t) as [su|] eqn:Et.
-  2:{ inversion E. subst. split; [exact HF|]. split; [intros _; exact Hp|split; [discriminate|apply keeps_refl]]. }
+  2:{ inversion E. subst. split; [exact HF|]. split; [intros _; exact Hp|split; [discriminate|split; [apply keeps_refl|split; [auto|discriminate]]]]. }
   assert (Hk : knownc (f_c s) t) by (unfold knownc, amem; rewrite Et; reflexivity).
   assert (Hgo : forall s0, FInv s0 -> poisoned s0 = false -> knownc (f_c s0) t -> rstat s0 t = Some RRunning ->
             run_while (run_fuel s0 t) s0 t (at_order a) (at_adds a) = (s', res) ->
             FInv s' /\ (match res with RunAbort _ => False | _ => True end -> poisoned s' = false) /\
-            (res = RunOk -> retrier_pending s' t = [] /\ knownc (f_c s') t) /\ keeps (c_db (f_c s0)) (c_db (f_c s'))).
+            (res = RunOk -> retrier_pending s' t = [] /\ knownc (f_c s') t) /\ keeps (c_db (f_c s0)) (c_db (f_c s')) /\
+            (forall k x, Prow (c_db (f_c s')) k x -> Prow (c_db (f_c s0)) k x) /\
+            (res = RunOk -> forall l, In l (retrier_pending s0 t) -> ~ Prow (c_db (f_c s')) t l)).
   { intros s0 H0 Hp0 Hk0 Hr0 E0.
-    destruct (FInv_run_while t (at_order a) _ s0 (at_adds a) s' res (conj H0 (conj Hp0 (conj Hk0 Hr0))) E0) as [A [B [C K]]].
-    split; [exact A|]. split; [intros Hna; apply B, Hna|]. split; [|exact K]. intros ->. split; [apply C; reflexivity|]. apply (proj2 (B I)). exact Hk0. }
+    destruct (FInv_run_while t (at_order a) _ s0 (at_adds a) s' res (conj H0 (conj Hp0 (conj Hk0 Hr0))) E0) as [A [B [C [K [PA PN]]]]].
+    split; [exact A|]. split; [intros Hna; apply B, Hna|]. split; [|split; [exact K|split; [exact PA|exact PN]]]. intros ->. split; [apply C; reflexivity|]. apply (proj2 (B I)). exact Hk0. }
   destruct (is_subscription_error (su_status su)); [|apply (Hgo s HF Hp Hk Hrun E)].
   set (s1 := log_req s (ReqRegister t)) in *.
   assert (HF1 : FInv s1) by (apply (FInv_core s); auto).
   destruct (at_reg a) as [slots start expiry sig_ok| | | |];
-    try (inversion E; subst; split; [exact HF1|]; split; [intros _; exact Hp|split; [discriminate|apply keeps_refl]]).
-  destruct (negb sig_ok); [inversion E; subst; split; [exact HF1|]; split; [intros _; exact Hp|split; [discriminate|apply keeps_refl]]|].
+    try (inversion E; subst; split; [exact HF1|]; split; [intros _; exact Hp|split; [discriminate|split; [apply keeps_refl|split; [auto|discriminate]]]]).
+  destruct (negb sig_ok); [inversion E; subst; split; [exact HF1|]; split; [intros _; exact Hp|split; [discriminate|split; [apply keeps_refl|split; [auto|discriminate]]]]|].
   destruct (wt_add_update_tower (f_c s1) t (su_addr su) slots start expiry REG_SIG) as [c' r] eqn:Eu.
   destruct (FInv_renew s1 t _ _ _ _ _ c' r HF1 Hp Hk Eu) as [HF2 Hok].
-  assert (Hkeep : keeps (c_db (f_c s)) (c_db c')).
+  assert (Hkeep : keeps (c_db (f_c s)) (c_db c') /\ (forall k x, Prow (c_db c') k x <-> Prow (c_db (f_c s)) k x)).
   { pose proof HF as [HI _]. destruct (prim_add_update_tower _ _ _ _ _ _ _ _ _ HI Hp Eu) as [_ [_ [_ [[Ed _]|[_ [_ [_ [_ [_ Hfr]]]]]]]]].
-    - rewrite Ed. apply keeps_refl.
-    - intros k x [H|[H|H]]; [left; apply (Rrow_ext _ _ k x (Hfr T_appointment_receipts ltac:(discriminate) ltac:(discriminate))), H
+    - rewrite Ed. split; [apply keeps_refl|tauto].
+    - split; [|intros k x; apply (Prow_ext _ _ k x (Hfr T_pending_appointments ltac:(discriminate) ltac:(discriminate)))].
+      intros k x [H|[H|H]]; [left; apply (Rrow_ext _ _ k x (Hfr T_appointment_receipts ltac:(discriminate) ltac:(discriminate))), H
         |right; left; apply (Prow_ext _ _ k x (Hfr T_pending_appointments ltac:(discriminate) ltac:(discriminate))), H
         |right; right; apply (Irow_ext _ _ k x (Hfr T_invalid_appointments ltac:(discriminate) ltac:(discriminate))), H]. }
-  destruct r; try (inversion E; subst; split; [exact HF2|]; split; [intros _; apply Hok; reflexivity|split; [discriminate|exact Hkeep]]).
+  destruct Hkeep as [Hkeep HPeq].
+  destruct r; try (inversion E; subst; split; [exact HF2|]; split; [intros _; apply Hok; reflexivity|split; [discriminate|split; [exact Hkeep|split; [intros k x Hx; apply HPeq, Hx|discriminate]]]]).
   - destruct (Hok eq_refl) as [Hp2 Hkn2].
-    destruct (Hgo (wr_c s1 c')) as [A [B [C K]]]; [exact HF2|exact Hp2|apply Hkn2, Hk|exact Hrun|exact E|].
-    split; [exact A|]. split; [exact B|]. split; [exact C|]. eapply keeps_trans; [exact Hkeep|exact K].
-  - inversion E. subst. split; [exact HF2|]. split; [intros []|split; [discriminate|exact Hkeep]].
+    destruct (Hgo (wr_c s1 c')) as [A [B [C [K [PA PN]]]]]; [exact HF2|exact Hp2|apply Hkn2, Hk|exact Hrun|exact E|].
+    split; [exact A|]. split; [exact B|]. split; [exact C|]. split; [eapply keeps_trans; [exact Hkeep|exact K]|].
+    split; [intros k x Hx; apply HPeq, PA, Hx|exact PN].
+  - inversion E. subst. split; [exact HF2|]. split; [intros []|split; [discriminate|split; [exact Hkeep|split; [intros k x Hx; apply HPeq, Hx|discriminate]]]].
 Qed.
 
 (* ---- the arms after retry_notify ---- *)
@@ -2707,7 +2728,7 @@ Proof.
   { destruct HF as [_ [_ [HV _]]]. destruct (HV Hp) as [_ [_ [_ [V4 _]]]]. unfold retrier_pending in Ep.
     destruct (aget (f_mgr s) t) as [r|] eqn:Er; [|discriminate]. rewrite <- Ep. eapply V4, Er. }
   pose proof (NoDup_reorder hint _ Hnd) as Hndr.
-  destruct (FInv_run_for t _ s adds s1 adds1 r1 Hpre Hndr) as [A [B [C [D [F G]]]]]; [|exact E1|].
+  destruct (FInv_run_for t _ s adds s1 adds1 r1 Hpre Hndr) as [A [B [C [D [F [G [PA PN]]]]]]]; [|exact E1|].
   { intros l Hl. rewrite Ep. apply In_reorder in Hl. exact Hl. }
   destruct (run_for_log t _ s adds s1 adds1 r1 E1) as [dn [rest [Hsplit [Hlog Hrest]]]].
   assert (Hsent : NoDup dn /\ incl dn (x :: p)).
@@ -2810,7 +2831,7 @@ Proof.
   destruct (memN t (f_tasks s)) eqn:Em; cbn [negb]; [|apply keeps_refl].
   assert (Hrun : rstat s t = Some RRunning) by (apply HF, memN_In, Em).
   destruct (run_attempt s t a) as [s1 r] eqn:E1.
-  destruct (FInv_run_attempt s t a s1 r HF Hrun E1) as [HF1 [Hnp [_ K1]]].
+  destruct (FInv_run_attempt s t a s1 r HF Hrun E1) as [HF1 [Hnp [_ [K1 _]]]].
   assert (Hrun1 : rstat s1 t = Some RRunning).
   { pose proof (run_attempt_same s t a) as [_ Hs]. rewrite E1 in Hs. cbn [fst] in Hs. rewrite Hs. exact Hrun. }
   pose proof (FInv_task_step s1 t r (at_more a) HF1 Hrun1 Hnp) as HF2.
@@ -3469,3 +3490,141 @@ Lemma misbehaviour_flagged_refuted_guarded :
     exists_misbehaving_proof (c_db (f_c s1)) t = true /\
     existsb (is_add_to t) (skipn (length (f_log s1)) (f_log s2)) = true.
 Proof. exists (firstn 8 w_c14b_ops), (skipn 8 w_c14b_ops), 0. vm_compute. repeat split. Qed.
+
+(* ====================================================================== *)
+(* C13 delivers_on_recovery / gives_up_truthfully: the retry task          *)
+(* ====================================================================== *)
+Definition accept_all (sl : list N) : list areply := map AAccept sl.
+
+(* with an accepting tower the for loop runs to its end (or panics, which the invariant excludes) *)
+Lemma run_for_accept t : forall locs s sl rest,
+  (length locs <= length sl)%nat ->
+  match snd (run_for s t locs (accept_all sl ++ rest)) with
+  | None | Some (RunAbort _) => True
+  | _ => False
+  end.
+Proof.
+  induction locs as [|l locs IH]; intros s sl rest Hlen; cbn [run_for]; [exact I|].
+  destruct (poisoned s); [exact I|]. destruct (dbm_load_appointment (c_db (f_c s)) l); [|exact I].
+  destruct sl as [|n sl]; [cbn in Hlen; lia|]. cbn [accept_all map app next_reply].
+  destruct (wt_add_appointment_receipt _ _ _ _ _ _ _) as [c2 r2]. destruct (lift_site r2); [exact I|].
+  destruct (wt_remove_pending_appointment c2 t l) as [c3 r3]. destruct (lift_site r3); [exact I|].
+  apply IH. cbn in Hlen. lia.
+Qed.
+
+Lemma length_reorder hint p : NoDup p -> length (reorder hint p) = length p.
+Proof.
+  intros Hp. apply Nat.le_antisymm.
+  - apply NoDup_incl_length; [apply NoDup_reorder, Hp|]. intros x Hx. apply In_reorder in Hx. exact Hx.
+  - apply NoDup_incl_length; [exact Hp|]. intros x Hx. apply In_reorder. exact Hx.
+Qed.
+
+(* one attempt against a tower that accepts everything (and, after a subscription error, renews the subscription
+   with an extending receipt first): run returns Ok *)
+Lemma run_attempt_accept s t a sl rest :
+  FInv s -> poisoned s = false -> rstat s t = Some RRunning -> knownc (f_c s) t ->
+  at_adds a = accept_all sl ++ rest -> (length (retrier_pending s t) <= length sl)%nat ->
+  (stat (f_c s) t = Some SubscriptionError ->
+     exists slots start expiry, at_reg a = RReceipt slots start expiry true /\ reg_extends (f_c s) t slots expiry = true) ->
+  snd (run_attempt s t a) = RunOk.
+Proof.
+  intros HF Hp Hrun Hk Hadds Hlen Hreg.
+  assert (Hgo : forall s0, FInv s0 -> poisoned s0 = false -> knownc (f_c s0) t -> rstat s0 t = Some RRunning ->
+            retrier_pending s0 t = retrier_pending s t ->
+            snd (run_while (run_fuel s0 t) s0 t (at_order a) (at_adds a)) = RunOk).
+  { intros s0 H0 Hp0 Hk0 Hr0 Hpe. pose proof (conj H0 (conj Hp0 (conj Hk0 Hr0))) as Hpre.
+    unfold run_fuel. remember (length (retrier_pending s0 t)) as fuel eqn:Efuel.
+    change (run_while (S (S fuel)) s0 t (at_order a) (at_adds a)) with
+      (match retrier_pending s0 t with
+       | [] => (s0, RunOk)
+       | p => match run_for s0 t (reorder (at_order a) p) (at_adds a) with
+              | (s1, _, Some r) => (s1, r)
+              | (s1, adds1, None) => run_while (S fuel) s1 t (at_order a) adds1
+              end
+       end). clear Efuel.
+    destruct (retrier_pending s0 t) as [|x p] eqn:Ep; [reflexivity|].
+    assert (Hnd : NoDup (x :: p)).
+    { destruct H0 as [_ [_ [HV _]]]. destruct (HV Hp0) as [_ [_ [_ [V4 _]]]]. unfold retrier_pending in Ep.
+      destruct (aget (f_mgr s0) t) as [r|] eqn:Er; [|discriminate]. rewrite <- Ep. eapply V4, Er. }
+    pose proof (NoDup_reorder (at_order a) _ Hnd) as Hndr.
+    assert (Hsub : forall l, In l (reorder (at_order a) (x :: p)) -> In l (retrier_pending s0 t)) by (intros l Hl; rewrite Ep; apply In_reorder in Hl; exact Hl).
+    pose proof (run_for_no_abort t _ s0 (at_adds a) Hpre Hndr Hsub) as Hna.
+    assert (Hlen0 : (length (reorder (at_order a) (x :: p)) <= length sl)%nat).
+    { rewrite (length_reorder _ _ Hnd). rewrite Hpe. exact Hlen. }
+    pose proof (run_for_accept t (reorder (at_order a) (x :: p)) s0 sl rest Hlen0) as Hacc. rewrite <- Hadds in Hacc.
+    destruct (run_for s0 t (reorder (at_order a) (x :: p)) (at_adds a)) as [[s1 adds1] r1] eqn:E1. cbn [snd] in Hna, Hacc.
+    destruct r1 as [r|].
+    - exfalso. destruct r; contradiction.
+    - destruct (FInv_run_for t _ s0 (at_adds a) s1 adds1 None Hpre Hndr Hsub E1) as [_ [_ [C [D _]]]].
+      assert (Hempty : retrier_pending s1 t = []).
+      { assert (Hno : forall y, ~ In y (retrier_pending s1 t)).
+        { intros y Hy. apply (C eq_refl y); [|exact Hy]. apply In_reorder. rewrite <- Ep. apply D, Hy. }
+        destruct (retrier_pending s1 t) as [|y q]; [reflexivity|]. exfalso. apply (Hno y). left. reflexivity. }
+      cbn [run_while]. rewrite Hempty. reflexivity. }
+  unfold run_attempt. rewrite Hp. unfold knownc, amem in Hk. destruct (aget (c_towers (f_c s)) t) as [su|] eqn:Et; [|discriminate].
+  destruct (is_subscription_error (su_status su)) eqn:Esub.
+  2:{ apply Hgo; auto. unfold knownc, amem. rewrite Et. reflexivity. }
+  destruct Hreg as [slots [start [expiry [Hr Hext]]]].
+  { unfold stat. rewrite Et. cbn. destruct (su_status su); try discriminate. reflexivity. }
+  rewrite Hr. cbn [negb].
+  set (s1 := log_req s (ReqRegister t)).
+  assert (HF1 : FInv s1) by (apply (FInv_core s); auto).
+  assert (Hk1 : knownc (f_c s1) t) by (unfold knownc, amem; cbn [f_c s1 log_req]; rewrite Et; reflexivity).
+  pose proof (add_update_tower_cases (f_c s1) t (su_addr su) slots start expiry REG_SIG) as Hc.
+  pose proof (add_update_tower_ok (f_c s1) t (su_addr su) slots start expiry REG_SIG (proj1 HF) Hp) as Hok.
+  destruct (wt_add_update_tower (f_c s1) t (su_addr su) slots start expiry REG_SIG) as [c' r] eqn:Eu. cbn [fst snd] in Hc, Hok.
+  destruct Hc as [[-> _]|[Hne [_ Hab]]].
+  - destruct (FInv_renew s1 t _ _ _ _ _ c' ROk HF1 Hp Hk1 Eu) as [HF2 Hok2]. destruct (Hok2 eq_refl) as [Hp2 Hkn2].
+    apply (Hgo (wr_c s1 c')); [exact HF2|exact Hp2|apply Hkn2, Hk1|exact Hrun|reflexivity].
+  - exfalso. destruct (Hab Hext) as [st ->]. discriminate Hok.
+Qed.
+
+(* DELIVERY: a live retry task of a known tower that now accepts: ONE attempt delivers the whole retrier set; the
+   task ends, the tower is reachable, its retrier stopped with an empty set, none of the delivered locators is a
+   pending row any more, and each still has a record *)
+Theorem delivers_attempt ops t a sl rest :
+  ops_fresh f_init ops = true -> let s := frun f_init ops in poisoned s = false ->
+  In t (f_tasks s) -> knownc (f_c s) t ->
+  at_adds a = accept_all sl ++ rest -> (length (retrier_pending s t) <= length sl)%nat ->
+  (stat (f_c s) t = Some SubscriptionError ->
+     exists slots start expiry, at_reg a = RReceipt slots start expiry true /\ reg_extends (f_c s) t slots expiry = true) ->
+  let s' := fst (fstep s (FRetrierRun t [a])) in
+  snd (fstep s (FRetrierRun t [a])) = ORun OutDelivered /\
+  stat (f_c s') t = Some Reachable /\ rstat s' t = Some RStopped /\ retrier_pending s' t = [] /\
+  ~ In t (f_tasks s') /\ aget (c_retriers (f_c s')) t = None /\
+  (forall l, In l (retrier_pending s t) -> ~ Prow (c_db (f_c s')) t l /\ recorded (c_db (f_c s')) t l).
+Proof.
+  intros Hg s Hp Hin Hk Hadds Hlen Hreg. pose proof (FInv_frun ops f_init FInv_init Hg) as HF. fold s in HF.
+  assert (Hrun : rstat s t = Some RRunning) by (apply HF, Hin).
+  pose proof (run_attempt_accept s t a sl rest HF Hp Hrun Hk Hadds Hlen Hreg) as Hok.
+  cbn [fstep f_retrier_run]. apply (proj2 (memN_In t (f_tasks s))) in Hin. rewrite Hin. cbn [negb].
+  destruct (run_attempt s t a) as [s1 r] eqn:E1. cbn [snd] in Hok. subst r.
+  destruct (FInv_run_attempt s t a s1 RunOk HF Hrun E1) as [HF1 [Hnp [Hset [K [PA PN]]]]].
+  destruct (Hset eq_refl) as [Hempty Hk1].
+  assert (Hrun1 : rstat s1 t = Some RRunning).
+  { pose proof (run_attempt_same s t a) as [_ Hs]. rewrite E1 in Hs. cbn [fst] in Hs. rewrite Hs. exact Hrun. }
+  assert (Htasks1 : In t (f_tasks s1)).
+  { pose proof (run_attempt_same s t a) as [Ht _]. rewrite E1 in Ht. cbn [fst] in Ht. rewrite Ht. apply memN_In, Hin. }
+  unfold rstat in Hrun1. destruct (aget (f_mgr s1) t) as [r1|] eqn:Er1; [|discriminate].
+  pose proof (task_step_not_running s1 t RunOk (at_more a) (proj2 (proj2 (proj2 HF1))) Htasks1) as Hnr.
+  cbn [task_step fst snd] in *. split; [reflexivity|].
+  set (c2 := with_retriers (wt_set_tower_status (f_c s1) t Reachable) (aremove (c_retriers (wt_set_tower_status (f_c s1) t Reachable)) t)) in *.
+  set (s2 := end_task (retrier_set_status (set_c s1 c2) t RStopped) t) in *.
+  assert (Ec : f_c s2 = c2) by (unfold s2; cbn [f_c end_task set_tasks]; rewrite f_c_retrier_set_status; reflexivity).
+  rewrite Ec. split.
+  { destruct (prim_set_status (f_c s1) t Reachable (proj1 HF1)) as [_ [_ [_ [_ [Hs _]]]]]. unfold stat in *. unfold c2. cbn [c_towers with_retriers].
+    rewrite (Hs t), N.eqb_refl. unfold knownc, amem in Hk1. destruct (aget (c_towers (f_c s1)) t); [reflexivity|discriminate]. }
+  split.
+  { unfold s2. change (rstat (end_task (retrier_set_status (set_c s1 c2) t RStopped) t) t) with (rstat (retrier_set_status (set_c s1 c2) t RStopped) t).
+    rewrite rstat_retrier_set_status, N.eqb_refl. unfold rstat. cbn [f_mgr set_c]. rewrite Er1. reflexivity. }
+  split.
+  { unfold s2. change (retrier_pending (end_task (retrier_set_status (set_c s1 c2) t RStopped) t) t) with (retrier_pending (retrier_set_status (set_c s1 c2) t RStopped) t).
+    rewrite (retrier_set_status_eq (set_c s1 c2) t RStopped r1 Er1), retrier_pending_put, N.eqb_refl. cbn [r_pending].
+    unfold retrier_pending in Hempty. rewrite Er1 in Hempty. exact Hempty. }
+  split; [apply Hnr|].
+  split.
+  { unfold c2. cbn [c_retriers with_retriers]. rewrite aget_aremove, N.eqb_refl. reflexivity. }
+  intros l Hl. unfold c2. cbn [c_db with_retriers]. rewrite DbInv_set_status. split; [apply (PN eq_refl l Hl)|].
+  apply K. right. left.
+  destruct HF as [_ [_ [HV _]]]. destruct (HV Hp) as [_ [V2 _]]. apply V2; [exact Hk|]. rewrite tracked_eq. apply in_or_app. left. exact Hl.
+Qed.
